@@ -123,8 +123,9 @@ Proof.
   replace (N.to_nat 0) with 0%nat by reflexivity. replace (N.to_nat 3) with 3%nat by reflexivity.
   replace (N.to_nat (0 + N.of_nat (length [x; y; z]))) with 3%nat by (cbn [length]; lia).
   replace (N.to_nat (3 + N.of_nat (length l))) with (3 + length l)%nat by lia.
-  cbn [firstn app].
   assert (L3 : length (firstn 3 b) = 3%nat) by (rewrite firstn_length; lia).
+  set (F := firstn 3 b) in *. set (R := skipn (3 + length l) b).
+  cbn [firstn app].
   rewrite skipn_app, L3. replace (3 - 3)%nat with 0%nat by lia. rewrite skipn_all2 by lia. cbn [skipn app].
   cbn [firstn Nat.add]. f_equal; f_equal; f_equal.
   rewrite firstn_app, firstn_all. replace (length l - length l)%nat with O by lia. cbn [firstn]. apply app_nil_r.
@@ -159,4 +160,37 @@ Proof.
   match goal with H : match ?rc with Success => _ | _ => _ end = Some _ |- _ => destruct rc end; mon; try contradiction.
   eexists _, _, _. split; [reflexivity|]. split; [eassumption|].
   unfold le16 in *. eapply put_put_take; eauto.
+Qed.
+
+(* ------------------------------------------------------------------ the attribute a notification reads *)
+(* decidable: every characteristic of the sorted list names (first_attribute_index + 1) its own value
+   attribute, and its CCCD number is its declaration order number *)
+Definition notif_index_ok (c : cfg) : bool :=
+  forallb (fun x => match attribute_at c (ci_first x + 1) with
+                    | Some (AValue _ _ g cci) => Nat.eqb g (ci_gci x) && (cci =? ci_pos x)
+                    | _ => false
+                    end) (sorted_infos c).
+
+Definition right_characteristic_full : Prop := forall c, wf c -> notif_index_ok c = true.
+
+From BT Require Import AttDb.AttDbNotifIndex.
+
+(* if every service has a characteristic: queue entry i names the value attribute of the i-th sorted
+   characteristic, and the store position i tested by l2cap_output is the one its CCCD attribute writes *)
+Theorem right_characteristic_nonempty c i x :
+  all_nonempty (services c) = true -> nth_error (sorted_infos c) i = Some x ->
+  find_notification_data_by_index c (N.of_nat i) = (ci_first x + 1, N.of_nat i)
+  /\ attribute_at c (ci_first x + 1) = Some (AValue (ci_svc x) (ci_char x) (ci_gci x) (ci_pos x))
+  /\ cccd_position c (ci_pos x) = N.of_nat i.
+Proof.
+  intros NE H. split; [|split].
+  - unfold find_notification_data_by_index. rewrite Nat2N.id, H. reflexivity.
+  - apply value_attribute_of_sorted; auto. eapply nth_error_In; eauto.
+  - apply sorted_cccd_position. exact H.
+Qed.
+
+Theorem notif_index_ok_nonempty c : all_nonempty (services c) = true -> notif_index_ok c = true.
+Proof.
+  intros NE. unfold notif_index_ok. apply forallb_forall. intros x Hx.
+  rewrite (value_attribute_of_sorted c x NE Hx). rewrite Nat.eqb_refl, N.eqb_refl. reflexivity.
 Qed.
